@@ -1,9 +1,8 @@
 (* mpscope_driver.ml — runs the extracted MsgPack scope model (coq/MpScopeModel.v) on the line
    protocol of harness/drv_mpscope.cpp:
-     hist|ahist <kind> <pol> <hexdoc> <history>   ->  <tokens> END <pos> <sentinel> | <tokens> ERR <cat>
-                                                      | <tokens> ERR? <cat> | TERMINATE | FUEL | STALE
-   ("ERR?": the exception was thrown from inside a value; the model does not follow the unwinding, the
-    implementation may answer ERR <cat> or TERMINATE)
+     hist|ahist <kind> <pol> <hexdoc> <history>   ->  <tokens> END <pos> <sentinel> <fin> | <tokens> ERR <cat>
+                                                      | FUEL | STALE
+   (no destructor of the scopes lets an exception escape since /repo 3580349: the model has no terminate outcome)
    and, for testing the statement of the theorems, the specification's own answer:
      spec|aspec <kind> <pol> <hexdoc> <history>   ->  <tokens> END <clean 0|1> | <tokens> ERR <cat> <clean 0|1> | NODOC | BADDOC *)
 
@@ -157,17 +156,17 @@ let () =
           let hidden = (t.(1) = "M" || t.(1) = "S") in
           print_endline
             (match fin with
-             | Done (toks, rest) ->
+             | Done (toks, rest, cf) ->
                let sent =
                  match read_int o s64 rest with
                  | ROk (v, _) -> "T" ^ shex_of_z v
                  | RNot _ -> "F"
                  | RErr e -> "ERR:" ^ err_cat e
                  | RFuel -> "FUEL" in
-               Printf.sprintf "%s END %s %s" (toks_text toks)
+               Printf.sprintf "%s END %s %s %s" (toks_text toks)
                  (if hidden then "?" else string_of_int (total - List.length rest)) sent
-             | Failed (toks, e, clean) -> Printf.sprintf "%s %s %s" (toks_text toks) (if clean then "ERR" else "ERR?") (serr_cat e)
-             | FTerm -> "TERMINATE"
+                 (if hidden then (if cf then "ERR:P" else "OK") else (if cf then "CF1" else "CF0"))
+             | Failed (toks, e) -> Printf.sprintf "%s ERR %s" (toks_text toks) (serr_cat e)
              | FFuel -> "FUEL"
              | FStale -> "STALE")
         end else if Array.length t = 5 && (t.(0) = "spec" || t.(0) = "aspec") then begin
